@@ -20,6 +20,13 @@ int __real_access(const char *, int);
 int __real_rename(const char *, const char *);
 int __real_mkdir(const char *, mode_t);
 int __real_unlink(const char *);
+int __real_ftruncate(int, off_t);
+int __real_fsync(int);
+int __real_fdatasync(int);
+ssize_t __real_pread(int, void *, size_t, off_t);
+ssize_t __real_pwrite(int, const void *, size_t, off_t);
+int __real_fstat(int, struct stat *);
+int __real_stat(const char *, struct stat *);
 }
 
 namespace simfs {
@@ -208,5 +215,85 @@ int __wrap_unlink(const char *path)
 	done("unlink", path, 0, r);
 	return r;
 }
+
+
+int __wrap_ftruncate(int fd, off_t len)
+{
+	auto it = g_fds.find(fd);
+	if (it == g_fds.end()) return __real_ftruncate(fd, len);
+	if (len < 0) { errno = EINVAL; done("ftruncate", 0, 0, -1); return -1; }
+	it->second.f->data.resize((size_t)len, '\0');
+	done("ftruncate", 0, 0, 0);
+	return 0;
+}
+int __wrap_ftruncate64(int fd, off_t len) { return __wrap_ftruncate(fd, len); }
+
+// simulated files have no volatile cache (a crash is a snapshot taken after a completed call), so syncing is a no-op
+int __wrap_fsync(int fd)
+{
+	if (g_fds.find(fd) == g_fds.end()) return __real_fsync(fd);
+	done("fsync", 0, 0, 0);
+	return 0;
+}
+int __wrap_fdatasync(int fd)
+{
+	if (g_fds.find(fd) == g_fds.end()) return __real_fdatasync(fd);
+	done("fdatasync", 0, 0, 0);
+	return 0;
+}
+
+ssize_t __wrap_pread(int fd, void *buf, size_t n, off_t off)
+{
+	auto it = g_fds.find(fd);
+	if (it == g_fds.end()) return __real_pread(fd, buf, n, off);
+	FD& d = it->second;
+	if (off < 0) { errno = EINVAL; done("pread", 0, 0, -1); return -1; }
+	size_t avail = off < (off_t)d.f->data.size() ? d.f->data.size() - off : 0;
+	size_t k = n < avail ? n : avail;
+	if (k) memcpy(buf, d.f->data.data() + off, k);
+	done("pread", 0, 0, (long)k);
+	return (ssize_t)k;
+}
+ssize_t __wrap_pread64(int fd, void *buf, size_t n, off_t off) { return __wrap_pread(fd, buf, n, off); }
+
+ssize_t __wrap_pwrite(int fd, const void *buf, size_t n, off_t off)
+{
+	auto it = g_fds.find(fd);
+	if (it == g_fds.end()) return __real_pwrite(fd, buf, n, off);
+	FD& d = it->second;
+	if (off < 0) { errno = EINVAL; done("pwrite", 0, 0, -1); return -1; }
+	if ((size_t)off + n > d.f->data.size()) d.f->data.resize((size_t)off + n, '\0');
+	if (n) memcpy(&d.f->data[off], buf, n);
+	done("pwrite", 0, 0, (long)n);
+	return (ssize_t)n;
+}
+ssize_t __wrap_pwrite64(int fd, const void *buf, size_t n, off_t off) { return __wrap_pwrite(fd, buf, n, off); }
+
+static void fill_stat(struct stat *st, size_t size, bool dir)
+{
+	memset(st, 0, sizeof *st);
+	st->st_mode = dir ? (S_IFDIR | 0755) : (S_IFREG | 0644);
+	st->st_nlink = 1; st->st_size = (off_t)size; st->st_blksize = 4096; st->st_blocks = (blkcnt_t)((size + 511) / 512);
+}
+int __wrap_fstat(int fd, struct stat *st)
+{
+	auto it = g_fds.find(fd);
+	if (it == g_fds.end()) return __real_fstat(fd, st);
+	fill_stat(st, it->second.f->data.size(), false);
+	done("fstat", 0, 0, 0);
+	return 0;
+}
+int __wrap_fstat64(int fd, struct stat *st) { return __wrap_fstat(fd, st); }
+int __wrap_stat(const char *path, struct stat *st)
+{
+	if (!is_sim_path(path)) return __real_stat(path, st);
+	auto it = g_files.find(path);
+	if (it != g_files.end()) fill_stat(st, it->second->data.size(), false);
+	else if (dir_exists(path)) fill_stat(st, 0, true);
+	else { errno = ENOENT; done("stat", path, 0, -1); return -1; }
+	done("stat", path, 0, 0);
+	return 0;
+}
+int __wrap_stat64(const char *path, struct stat *st) { return __wrap_stat(path, st); }
 
 }
